@@ -573,6 +573,12 @@ def _replay(fsrc, contract, ex, args, model, ob, case):
             if not rfn(a):
                 info["spurious"] = f"model violates requires[{rname}]"
                 return info
+        # pre-state for the executable twin of clauses that mention a.old.<param>.<field>
+        import copy
+        try:
+            a.__dict__["old"] = NS({k: copy.deepcopy(v) for k, v in real_args.items()})
+        except Exception:
+            a.__dict__["old"] = NS(dict(real_args))
         names = list(real_args)
         call_args = dict(real_args)
         recv = None
